@@ -215,7 +215,7 @@ func noInitPkg(path string) bool {
 	case "errors", "runtime", "os", "syscall", "reflect", "sync", "sync/atomic", "unsafe", "testing",
 		"time", "fmt", "log", "net", "os/signal", "runtime/debug", "runtime/pprof",
 		"crypto/rand", "math/rand", "math/rand/v2", "crypto/sha256", "crypto/sha512",
-		"crypto/sha1", "crypto/md5", "crypto", "hash/crc32", "math/big", "unicode",
+		"crypto/sha1", "crypto/md5", "crypto", "hash/crc32", "math/big",
 		"crypto/subtle", "encoding/json", "path/filepath", "io/fs", "io/ioutil", "bufio",
 		"compress/gzip", "compress/flate", "flag", "text/tabwriter",
 		"github.com/btcsuite/btcd/btcec/v2", "github.com/decred/dcrd/dcrec/secp256k1/v4",
@@ -546,10 +546,21 @@ func visitInstr(fr *frame, instr ssa.Instruction) continuation {
 
 // indexIn checks a (possibly symbolic) index against a concrete length and
 // returns a concrete index, forking over feasible values.
-func (i *interpreter) indexIn(idx value, t types.Type, n int) int64 {
+func (i *interpreter) indexIn(idx value, tIdx types.Type, n int) int64 {
 	if t, ok := idx.(*Term); ok {
 		// bounds check first: the out-of-range side is explored as a panic
-		inb := i.tt.Cmp(OpUlt, t, i.tt.Const(t.W, uint64(n)))
+		// compare at 64 bits: the length may not fit the index type (a
+		// [256]T indexed by a uint8), and a negative signed index is out
+		// of range
+		wide := t
+		if t.W < 64 {
+			if b, ok := tIdx.Underlying().(*types.Basic); ok && b.Info()&types.IsUnsigned == 0 {
+				wide = i.tt.SExt(t, 64)
+			} else {
+				wide = i.tt.ZExt(t, 64)
+			}
+		}
+		inb := i.tt.Cmp(OpUlt, wide, i.tt.Const(64, uint64(n)))
 		if !i.decide(inb) {
 			panic(runtimeErr("index out of range (symbolic index)"))
 		}
